@@ -13371,6 +13371,12 @@ impl PeerConnection {
 
     /// Installs a (never started) `DtlsTransport` over an unconnected `IceConn`, which is exactly the
     /// condition `set_remote_description` tests with `dtls_transport.lock().is_some()`.
+    /// Puts the connection into the given peer state the way the transport tasks do
+    /// (`set_peer_state`), without a network: `close()` must force `Closed` from every one.
+    pub fn verif_set_peer_state(&self, state: PeerConnectionState) {
+        self.inner.set_peer_state(state);
+    }
+
     pub async fn verif_mark_dtls_started(&self) -> RtcResult<()> {
         let (_tx, rx) = watch::channel(None);
         let conn = IceConn::new(
